@@ -61,6 +61,22 @@ def units():
                              ('swap_impl__r' + b, ['C01', 'C02', 'C05', 'C06', 'C07'])]:
                 add('svb.%s.%s.%s' % (m.split('__')[0] + ('_c' if m.endswith('_c') else ''), et, sz), b + '__' + m, props, 1, b, sz, elem,
                     throws_reachable=False)
+    # ---- the two other bases
+    for elem in ('ElemNR', 'ElemTR'):
+        et = ELEM_TAG[elem]
+        for sz in ('u8',):
+            for fl, fnum, b in (('std', 2, 'StdVectorBase_E_A_%s' % sz), ('static', 3, 'StaticVectorBase_E_%s' % sz)):
+                lst = [('size__v_c', ['C01', 'C20']), ('capacity__v_c', ['C05', 'C07', 'C20']), ('begin__v', ['C05', 'C07']), ('begin__v_c', ['C05', 'C07', 'C20']),
+                       ('incrSize__v', ['C01', 'C05', 'C07']), ('decrSize__v', ['C01', 'C05', 'C07']), ('setSize__' + sz, ['C01', 'C05', 'C07']),
+                       ('move_construct__r%s_%s' % (b, sz), ['C01', 'C02', 'C05', 'C06', 'C07']), ('move_assign__r%s_%s' % (b, sz), ['C01', 'C02', 'C05', 'C06', 'C07']),
+                       ('swap_impl__r' + b, ['C01', 'C02', 'C05', 'C06', 'C07'])]
+                if fl == 'std':
+                    lst += [('dtor__v', ['C06']), ('grow__u64_b', ['C01', 'C02', 'C06', 'C07', 'C08', 'C09', 'C18']), ('shrink_impl__' + sz, ['C01', 'C02', 'C06', 'C09', 'C18'])]
+                for m, props in lst:
+                    pp = [p for p in props if not (fl == 'static' and p == 'C06') and not (fl == 'std' and p == 'C05')]
+                    add('%s.%s.%s.%s' % ('dvb' if fl == 'std' else 'fvb', m.split('__')[0] + ('_c' if m.endswith('_c') else ''), et, sz), b + '__' + m, pp, fnum, b, sz, elem,
+                        throws_reachable=m.startswith(('grow', 'shrink')))
+                    us[-1]['defs']['SIZE_STEP'] = '0' if m.startswith('incr') else ('2' if m.startswith('decr') else '0')
     # ---- public operations (VectorImpl) per flavour
     FLAV = {'small': (1, 'SmallVectorBase_E_A_%s', 'VectorImpl_E_A_%s_t_Dyn'), 'std': (2, 'StdVectorBase_E_A_%s', 'VectorImpl_E_A_%s_f_Dyn'),
             'static': (3, 'StaticVectorBase_E_%s', 'VectorImpl_E_X_%s_t_Exc')}
